@@ -26,6 +26,7 @@ pub fn reset_all() {
     scru::reset();
     trace::reset();
     unsafe { pool::MULTI = false };
+    unsafe { pool::RECV_BUDGET = 8 };
     unsafe { stdm::sync::HELD = 0 };
     stdm::collections::reset_sets();
     crate::store::harness::reset_pools();
